@@ -26,7 +26,7 @@ ASSUMPTIONS = [
     "float64 (jax_enable_x64), CPU",
     "closed form evaluated with the mechanism's own public rate functions (m_gate, ...) recombined in NumPy (1e-12), and - for v in "
     "[-150,100] - with the published rates of vp/ref/mech.py (1e-5: an error of a rate function that moves the update, e.g. cancellation "
-    "one ulp away from a singular voltage); CaT tau_u uses the saturated form of open finding N6",
+    "one ulp away from a singular voltage)",
     "synapses have no public rate function: Abbott&Marder s_inf/tau transcribed in vp/ref/mech.py",
     "tolerance 1e-12 absolute plus the conditioning of tau=(1-s_inf)/k_minus for synapses",
     "an exception from update_states is a violation (the property says the update returns a value)",
@@ -334,10 +334,7 @@ def _judge_direct(spec, out):
             inr = (v >= -150.0) & (v <= 100.0)
             if inr.any():
                 gfun = R2.CHANNELS[mech]["gates"][g]
-                if mech == "CaT":
-                    kind, a_, b_ = gfun(v[inr], {k: a[inr] for k, a in params_np.items()}, saturate_at=20.0)  # open finding N6
-                else:
-                    kind, a_, b_ = gfun(v[inr], {k: a[inr] for k, a in params_np.items()})
+                kind, a_, b_ = gfun(v[inr], {k: a[inr] for k, a in params_np.items()})
                 xr, tr = R2.steady_tau(kind, a_, b_)
                 want = R2.exp_update(S[inr, i], dt, xr, tr)
                 bad = ~(np.abs(s_new[inr] - want) <= 1e-5)
